@@ -115,11 +115,61 @@ let gres_to_string (r : gres outcome) : string =
   | Panic -> "panic"
   | OOB -> "oob"
 
+let ops_of (s : string) : string list = List.filter (fun x -> x <> "") (split_on ';' s)
+
+(* ---------------------------------------------------------------- glyf table spec (kind T) *)
+(* a record's raw data is its spec string; parse = what scope.read::<Glyph>() answers for the bytes the harness
+   builds from it (t_glyph_bytes in c03.rs) *)
+let t_parse (g : string) : z glyph outcome =
+  if g = "" then Ok GEmpty else
+  let rest = String.sub g 1 (String.length g - 1) in
+  match g.[0] with
+  | 's' | 'q' -> Ok (GSimple Z0)
+  | 'c' | 'k' -> (match zlist_dot rest with [] -> Err Eof | cs -> Ok (GComposite cs))
+  | 't' | 'u' -> Err Eof
+  | _ -> Ok GEmpty
+
+let t_table (spec : string) : (string, z) grec list =
+  let (mode, gs) = match String.index_opt spec '!' with
+    | Some _ -> split1 '!' spec
+    | None -> ("p", spec) in
+  List.map (fun g ->
+      match g.[0], t_parse g with
+      | ('s' | 'q' | 'c' | 'k' | 't' | 'u'), Ok p when mode = "r" -> Parsed p
+      | ('s' | 'q' | 'c' | 'k' | 't' | 'u'), _ -> Present g
+      | _ -> Parsed GEmpty)          (* a zero-length loca entry is GlyfRecord::empty() *)
+    (List.filter (fun x -> x <> "") (split_on ',' gs))
+
+let t_op_of_string (s : string) : top option =
+  match split_on ':' s with
+  | ["v"; g] -> Some (TVisit (z_of_string g))
+  | ["g"; g] -> Some (TGet (z_of_string g))
+  | _ -> None
+
+let tres_to_string (r : z tres) : string =
+  match r with
+  | RDrawn (Ok l) -> "ok:" ^ string_of_int (List.length l)
+  | RGlyph (Ok GEmpty) -> "ok:E"
+  | RGlyph (Ok (GSimple _)) -> "ok:S"
+  | RGlyph (Ok (GComposite cs)) -> "ok:C" ^ String.concat "." (List.map z_to_string cs)
+  | RDrawn (Err e) | RGlyph (Err e) -> "err:" ^ err_to_string e
+  | RDrawn Panic | RGlyph Panic -> "panic"
+  | RDrawn OOB | RGlyph OOB -> "oob"
+
+let run_t (spec : string) (hist : string) (probe : string) : string =
+  let t0 = t_table spec in
+  let ops = List.map t_op_of_string (ops_of hist @ [probe]) in
+  let modelled = List.filter_map (fun x -> x) ops in
+  (* the stateless specification, call by call; the run on ONE table must give the same (C03_glyf_table_history_independent) *)
+  let spec_res = List.map (fun op -> tres_to_string (t_spec t_parse t0 op)) modelled in
+  let run_res = List.map tres_to_string (fst (t_run t_parse t0 modelled)) in
+  if spec_res <> run_res then failwith "c03: t_run and t_spec differ";
+  String.concat "," (List.map (function Some op -> tres_to_string (t_spec t_parse t0 op) | None -> "-") ops)
+
 let contains (s : string) (sub : string) : bool =
   let n = String.length s and m = String.length sub in
   let rec go i = i + m <= n && (String.sub s i m = sub || go (i + 1)) in go 0
 
-let ops_of (s : string) : string list = List.filter (fun x -> x <> "") (split_on ';' s)
 
 let run (input : string) : string =
   match split_on '|' input with
@@ -135,7 +185,8 @@ let run (input : string) : string =
     let h = List.map gres_to_string (g_run fs font_new ops) in
     let f = List.map gres_to_string (g_spec_run fs dEFAULT_IMAGE_FILTER ops) in
     "h=" ^ String.concat ";" h ^ "#f=" ^ String.concat ";" f
-  | "F" :: _ | "P" :: _ | "P1" :: _ | "P2" :: _ -> "-"
+  | ["T"; spec; hist; probe] -> run_t spec hist probe
+  | "F" :: _ | "T" :: _ | "P" :: _ | "P1" :: _ | "P2" :: _ -> "-"
   | _ -> failwith "c03 input"
 
 let kind (input : string) : string =
@@ -169,6 +220,18 @@ let judge (input : string) (impl : string) (model : string) : verdict =
                       Printf.sprintf "call %d returned %s after the earlier calls but %s on a fresh object" (i + 1) a b)
          | None -> if impl = model then Agree else Mismatch "implementation and model differ"
        end)
+  | "T" ->
+    (* the property first, on the implementation's output alone; then the statuses of the calls on a freshly read
+       table against the extracted model (visit_spec / parsed_of) *)
+    (match split_on ' ' impl with
+     | [a; _; _] when a = "nofont" -> Mismatch "the table did not load"
+     | [a; b; st] ->
+       if a <> b then
+         Violation ("history-table",
+                    Printf.sprintf "calls on one GlyfTable gave digest %s, the same calls each on a freshly read table %s" a b)
+       else if st <> model then Mismatch (Printf.sprintf "fresh-table results %s, model %s" st model)
+       else Agree
+     | _ -> Mismatch ("unexpected implementation output: " ^ impl))
   | "F" | "P" | "P2" ->
     (match split_on ' ' impl with
      | [a; b] when a = "nofont" -> Mismatch "the font did not load"
@@ -190,5 +253,8 @@ let tag (input : string) (out : string) : string =
   | [_; font; hist; probe] when k = "F" ->
     let p = match String.index_opt probe ':' with Some i -> String.sub probe 0 i | None -> probe in
     Printf.sprintf "F-%s-%s-h%d" (if starts_with "syn:" font then "syn" else "fix") p (min 3 (List.length (ops_of hist)))
+  | [_; spec; hist; probe] when k = "T" ->
+    let p = match String.index_opt probe ':' with Some i -> String.sub probe 0 i | None -> probe in
+    Printf.sprintf "T-%s-%s-h%d" (if starts_with "r!" spec then "parsed" else "lazy") p (min 3 (List.length (ops_of hist)))
   | [_; what; _; _] -> k ^ "-" ^ what
   | _ -> k
